@@ -84,6 +84,8 @@ def run_case(case):
     size = p1 * p2
     dtype = lay.DTYPES[case['dtype']]
     G = lay.global_array(shape, dtype)
+    if case['mode'] == 'fork':
+        G = lay.zero_bands(G)          # fork-mode cases move a field with exactly-zero bands (value-dependent shortcuts)
     eta = lay.eta_for(shape)
     names = [n for g in groups for n in g]
     group_of = {n: i for i, g in enumerate(groups) for n in g}
